@@ -118,7 +118,12 @@ int cp_pss_ver(const g1_t a, const g1_t b, const bn_t m, const g2_t g,
 		g2_norm(r[0], r[0]);
 
 		pc_map_sim(e, p, r, 2);
-		if (gt_is_unity(e) && !g1_is_infty(a)) {
+		/*
+		 * The generator must be a valid element (otherwise e(b, g) = 1) and
+		 * y an element of the group ([m]y = O for m = 0 whatever y is).
+		 */
+		if (gt_is_unity(e) && !g1_is_infty(a) && g2_is_valid(g) &&
+				(g2_is_infty(y) || g2_is_valid(y))) {
 			result = 1;
 		}
 	}
@@ -238,8 +243,17 @@ int cp_psb_ver(const g1_t a, const g1_t b, const bn_t ms[], const g2_t g,
 		g2_copy(q[1], g);
 		g2_neg(q[1], q[1]);
 		pc_map_sim(e, p, q, 2);
-		if (!g1_is_infty(a) && gt_is_unity(e)) {
+		/*
+		 * The generator must be a valid element (otherwise e(b, g) = 1) and
+		 * the y_i elements of the group ([m]y = O for m = 0 whatever y is).
+		 */
+		if (!g1_is_infty(a) && gt_is_unity(e) && g2_is_valid(g)) {
 			result = 1;
+		}
+		for (size_t i = 0; i < l; i++) {
+			if (!g2_is_infty(y[i]) && !g2_is_valid(y[i])) {
+				result = 0;
+			}
 		}
 	}
 	RLC_CATCH_ANY {
